@@ -55,8 +55,20 @@ class StubAtoms:
         from ase.data import atomic_masses
         return to_obj(atomic_masses[self.numbers])
 
+    def _complete_cell(self):
+        """ase.Cell.scaled_positions solves against cell.complete(): a rank-deficient (constant) cell is completed first"""
+        from .npproxy import det3
+        try:
+            if all(v.is_const() for v in np.ravel(self.cell)) and det3(self.cell).cval() == 0:
+                import ase.geometry
+                from .values import const_array
+                return const_array(ase.geometry.complete_cell(np.array([[float(v.cval()) for v in row] for row in self.cell], dtype=float)))
+        except Exception:
+            pass
+        return self.cell
+
     def get_scaled_positions(self, wrap=True):
-        f = solve3(self.cell.T, self.positions.T).T
+        f = solve3(self._complete_cell().T, self.positions.T).T
         if wrap:
             for i in range(3):
                 if self.pbc[i]:
